@@ -23,8 +23,9 @@ MIN = MINCACHE
 def _omp_run(pid, kinds, tier, mincache=False):
     """OpenMP-build run of a sequential property: the C16 scenarios of the given kinds under the ICB scheduler + mini-GOMP
     (result equals the reference model for every explored schedule, happens-before race detection)."""
-    args = ["--bound=1", "--as=" + pid, "--kinds=" + hex(kinds)] + ([] if tier == "thorough" else ["--max-team=4"])
-    if tier == "thorough": args.append("--teams=1-5")
+    # the scenario list of C16's quick tier restricted to this property's entry points; C16 itself runs the full team range and
+    # the larger shapes (its thorough tier needs the whole budget, so the copies here stay small enough to complete)
+    args = ["--bound=1", "--as=" + pid, "--kinds=" + hex(kinds), "--max-team=" + ("5" if tier == "thorough" else "4"), "--list=quick"]
     if mincache:  # cache-derived recursion thresholds are reached at the scenario sizes (600..700) only in a small-cache build
         return _icb(C(openmp=1, instr="tsancb", opt="-O1", **MIN), "icb/h_c16.c", args, "openmp-build-icb-min-cache")
     return _icb(C(openmp=1, instr="tsancb", opt="-O1"), "icb/h_c16.c", args, "openmp-build-icb")
@@ -42,7 +43,7 @@ def _c01_runs(tier):
 
 PROPS["C01"] = dict(
     level="exploration", runs=_c01_runs,
-    rule="(DJB: djb_compile + djb_apply_mzd on a zeroed target for A in 11 x 12 shapes (rows up to 130, 1..4-word rows) x 10 patterns and all single-entry A of small shapes, V of 14 widths (1..10 words: every residue of the word-wise row addition, with and without SSE2), compiled program checked for in-range row indices) + (OpenMP build: the multi-core front ends, Strassen and M4RM products of C16's scenario list run under the ICB scheduler with the mini-GOMP runtime for teams 2..4 (thorough 1..5): result equals the reference model on every explored schedule, happens-before race detection) + complete product of declared alphabets: multiplication routes x parameters (k in {-1..17 sample incl. all of 2..8}, cutoffs) x shape triples x operand pattern pairs (dense pairs, sparse, identity, zero, and complete unit bases by bilinearity: l cyclic one-entry-per-row matrices for A, l for B), plus 'alias' cases where the two factors are distinct views of ONE parent matrix (common top-left corner / side by side / overlapping rows) for all shape triples of a boundary set; a case is (route, parameter, shape, patterns); non-trivial = the reference product is non-zero; distinct = distinct (operand digest, route, parameter)",
+    rule="(DJB: djb_compile + djb_apply_mzd on a zeroed target for A in 11 x 12 shapes (rows up to 130, 1..4-word rows) x 10 patterns and all single-entry A of small shapes, V of 14 widths (1..10 words: every residue of the word-wise row addition, with and without SSE2), compiled program checked for in-range row indices) + (OpenMP build: the multi-core front ends, Strassen and M4RM products of C16's scenario list run under the ICB scheduler with the mini-GOMP runtime for teams 1..4 (thorough 1..5): result equals the reference model on every explored schedule, happens-before race detection) + complete product of declared alphabets: multiplication routes x parameters (k in {-1..17 sample incl. all of 2..8}, cutoffs) x shape triples x operand pattern pairs (dense pairs, sparse, identity, zero, and complete unit bases by bilinearity: l cyclic one-entry-per-row matrices for A, l for B), plus 'alias' cases where the two factors are distinct views of ONE parent matrix (common top-left corner / side by side / overlapping rows) for all shape triples of a boundary set; a case is (route, parameter, shape, patterns); non-trivial = the reference product is non-zero; distinct = distinct (operand digest, route, parameter)",
     level_text="Bounded-exhaustive differential exploration: every multiplication entry point is executed on the complete Cartesian product of finite shape/pattern/parameter alphabets (all residues around 64-bit words, Strassen split limits, cubic/table switches) in a default and a minimum-cache/no-SSE2 build, and every result is compared bit for bit with an independent reference product; factors must be unchanged and padding zero; ASan/UBSan on.",
     level_note="Bounded: dimensions <= ~1400, fixed pattern alphabets (unit bases are complete only under bilinearity, which is assumed, not proved). OpenMP build: run under ICB here (quick: teams 2..4), the full team range in C16.",
     technique="bounded-exhaustive enumeration of input/parameter alphabets on the real code against a reference model",
@@ -62,7 +63,7 @@ def _c02_runs(tier):
 
 PROPS["C02"] = dict(
     level="exploration", runs=_c02_runs,
-    rule="(OpenMP build: mzd_echelonize_m4ri and mzd_echelonize_pluq on > 512-row rank-deficient inputs run under the ICB scheduler with the mini-GOMP runtime for teams 2..4 (thorough 1..5): result equals the reference model on every explored schedule, happens-before race detection) + entry points {naive, gauss_delayed, M4RI (k alphabet), PLUQ-based, hybrid, hybrid with every threshold} x full in {0,1} x inputs: TINY(N) = ALL matrices with <= N entries of every shape (N=14 quick / 18 thorough), LIFT = Kronecker lifts of ALL binary matrices with <= 8 (12) entries by blocks {7,33,65,(1,64)} x {identity, dense invertible, all-ones} x {plain, left-, both-side densified}, ECH = echelon forms over ALL subsets of 10 boundary pivot columns, RK = low-rank products on boundary shapes, BND = boundary shapes x structured patterns, HYB = sparse-start/dense-end block matrices with > 256 sparse columns on which the density-switching hybrid changes algorithm in the middle (every threshold in {0,0.05,0.1,0.2,0.25,0.5,1,2} x k in {0,3,6}), plus threshold shapes of the min-cache build; non-trivial = rank > 0; distinct = distinct (input digest, entry point, full, k, threshold)",
+    rule="(OpenMP build: mzd_echelonize_m4ri and mzd_echelonize_pluq on > 512-row rank-deficient inputs run under the ICB scheduler with the mini-GOMP runtime for teams 1..4 (thorough 1..5): result equals the reference model on every explored schedule, happens-before race detection) + entry points {naive, gauss_delayed, M4RI (k alphabet), PLUQ-based, hybrid, hybrid with every threshold} x full in {0,1} x inputs: TINY(N) = ALL matrices with <= N entries of every shape (N=14 quick / 18 thorough), LIFT = Kronecker lifts of ALL binary matrices with <= 8 (12) entries by blocks {7,33,65,(1,64)} x {identity, dense invertible, all-ones} x {plain, left-, both-side densified}, ECH = echelon forms over ALL subsets of 10 boundary pivot columns, RK = low-rank products on boundary shapes, BND = boundary shapes x structured patterns, HYB = sparse-start/dense-end block matrices with > 256 sparse columns on which the density-switching hybrid changes algorithm in the middle (every threshold in {0,0.05,0.1,0.2,0.25,0.5,1,2} x k in {0,3,6}), plus threshold shapes of the min-cache build; non-trivial = rank > 0; distinct = distinct (input digest, entry point, full, k, threshold)",
     level_text="Bounded-exhaustive differential exploration: every echelonisation entry point on every member of complete small-matrix domains and of structured families that place every block rank profile across word and table-block boundaries; rank, exact RREF, echelon shape, row space and top-reduction are compared with an independent Gaussian elimination.",
     level_note="Bounded: all matrices only up to 14/18 entries; beyond that lifts of exhaustive cores and fixed families up to 1300 columns. Hybrid density heuristic is only entered for matrices with > 256 columns in the loop and at the start for dense inputs.",
     technique="bounded-exhaustive enumeration (all small matrices, all lifted rank profiles) on the real code against a reference Gaussian elimination",
@@ -139,7 +140,7 @@ def _c04_runs(tier):
 
 PROPS["C04"] = dict(
     level="exploration", runs=_c04_runs,
-    rule="(OpenMP build (host and min-cache configuration): the four triangular solves with n = 600/650 (thorough also 1100) run under the ICB scheduler with the mini-GOMP runtime for teams 2..4 (thorough 1..5): result equals the reference model on every explored schedule, happens-before race detection) + variants {4 public wrappers x cutoffs, 4 _mzd_ cores, 2 Four-Russians cores x k in 0..8} x opposite-triangle fill {zeros, ones, pseudo-random} x T in {ALL unit-triangular matrices n <= 5 (6), a single off-diagonal entry at every position (n up to 66 / 130), full triangle, PR triangles of three densities} x n around word boundaries and the recursion thresholds of the build x B widths {1,2,63,64,65,129,n}; non-trivial = B non-zero; distinct = distinct (T, B, variant, parameter)",
+    rule="(OpenMP build (host and min-cache configuration): the four triangular solves with n = 600/650 (thorough also 1100) run under the ICB scheduler with the mini-GOMP runtime for teams 1..4 (thorough 1..5): result equals the reference model on every explored schedule, happens-before race detection) + variants {4 public wrappers x cutoffs, 4 _mzd_ cores, 2 Four-Russians cores x k in 0..8} x opposite-triangle fill {zeros, ones, pseudo-random} x T in {ALL unit-triangular matrices n <= 5 (6), a single off-diagonal entry at every position (n up to 66 / 130), full triangle, PR triangles of three densities} x n around word boundaries and the recursion thresholds of the build x B widths {1,2,63,64,65,129,n}; non-trivial = B non-zero; distinct = distinct (T, B, variant, parameter)",
     level_text="Bounded-exhaustive differential exploration of the four triangular solves: complete enumeration of small triangular matrices and of single-entry positions, structured and dense triangles at every size class (base case <= 64, Four-Russians, recursion in the min-cache build), always with three different contents of the unused triangle; the oracle multiplies the named triangle by the result with the reference product.",
     level_note="Bounded: n <= ~600; dense triangles are fixed pseudo-random patterns.",
     technique="bounded-exhaustive enumeration on the real code against a reference product (T_named * X == B)",
@@ -160,7 +161,7 @@ def _c05_runs(tier):
 
 PROPS["C05"] = dict(
     level="exploration", runs=_c05_runs,
-    rule="(OpenMP build (host and min-cache configuration, the latter reaches the recursive branches): mzd_inv_m4ri with n = 600 (thorough also 530, k = 3), mzd_trtri_upper with n = 700 / 400 run under the ICB scheduler with the mini-GOMP runtime for teams 2..4 (thorough 1..5): result equals the reference model on every explored schedule, happens-before race detection) + routines {mzd_inv_m4ri with NULL / supplied destination x k in 0..10, mzd_invert_naive with NULL / supplied destination, mzd_trtri_upper, mzd_trtri_upper_russian x k in 0..8} x inputs: ALL of GL_n(2) for n <= 4 (5), ALL unit upper triangular matrices n <= 6 (7), Kronecker lifts of all small unit-triangular / invertible cores by blocks {7,33,(64),65}, dense invertible / PR unit-triangular / rotation / full-triangle matrices at boundary sizes, and the recursive trtri branch in the min-cache build (n >= 363); non-trivial = n > 1; distinct = distinct (input, routine, k)",
+    rule="(OpenMP build (host and min-cache configuration, the latter reaches the recursive branches): mzd_inv_m4ri with n = 600 (thorough also 530, k = 3), mzd_trtri_upper with n = 700 / 400 run under the ICB scheduler with the mini-GOMP runtime for teams 1..4 (thorough 1..5): result equals the reference model on every explored schedule, happens-before race detection) + routines {mzd_inv_m4ri with NULL / supplied destination x k in 0..10, mzd_invert_naive with NULL / supplied destination, mzd_trtri_upper, mzd_trtri_upper_russian x k in 0..8} x inputs: ALL of GL_n(2) for n <= 4 (5), ALL unit upper triangular matrices n <= 6 (7), Kronecker lifts of all small unit-triangular / invertible cores by blocks {7,33,(64),65}, dense invertible / PR unit-triangular / rotation / full-triangle matrices at boundary sizes, and the recursive trtri branch in the min-cache build (n >= 363); non-trivial = n > 1; distinct = distinct (input, routine, k)",
     level_text="Bounded-exhaustive differential exploration of the inversion routines: complete enumeration of the small general linear groups and of small unit-triangular matrices, their lifts across word boundaries, and boundary/threshold sizes; A*B = B*A = I and equality with the reference inverse are checked for every case.",
     level_note="Bounded: complete enumeration only for n <= 4 (5) resp. 6 (7); larger inputs are lifts and fixed pseudo-random matrices up to n ~ 770.",
     technique="bounded-exhaustive enumeration (all of GL_n(2) for small n, all small unit-triangular matrices, lifts) on the real code against a reference inverse",
